@@ -17,6 +17,7 @@ type idealSum struct {
 	kind string // crc32c | fnv64
 	seq  []*Term
 	key  string
+	active, allConst bool
 }
 
 func seqKey(kind string, seq []*Term) string {
@@ -46,34 +47,53 @@ func (m *Machine) sumOfSeq(kind string, w int, seq []*Term) *Term {
 		}
 	}
 	v := m.newVar(fmt.Sprintf("%s_%d", kind, len(m.crcs)), w)
-	ns := &idealSum{v: v, kind: kind, seq: seq, key: k}
-	// injectivity axioms against every sum already on this path
-	for _, o := range m.crcs {
-		if o.kind != kind {
-			continue
-		}
-		eqSum := Cmp("=", v, o.v)
-		if len(o.seq) != len(seq) {
-			m.assume(Not(eqSum))
-			continue
-		}
-		eqSeq := True
-		for i := range seq {
-			eqSeq = And(eqSeq, Cmp("=", seq[i], o.seq[i]))
-		}
-		m.assume(Cmp("=", eqSum, eqSeq))
-	}
+	v.isSum = true
+	v.sums = []*Term{v}
+	ns := &idealSum{v: v, kind: kind, seq: seq, key: k, allConst: allConst}
 	m.crcs = append(m.crcs, ns)
+	m.sumOf[v] = ns
 	m.stubsUsed["ideal-"+kind]++
-	if allConst {
-		// a fully concrete sequence has its real checksum
-		bs := make([]byte, len(seq))
-		for i, t := range seq {
-			bs[i] = byte(t.Val)
-		}
-		m.assume(Cmp("=", v, BV(w, realSum(kind, bs))))
-	}
 	return v
+}
+
+// touch activates every ideal sum occurring in t: a sum's injectivity axioms are
+// asserted (at path level) the first time the sum takes part in a solver query,
+// so intermediate running sums that are never compared cost nothing.
+func (m *Machine) touch(t *Term) {
+	for _, sv := range t.sums {
+		s := m.sumOf[sv]
+		if s == nil || s.active {
+			continue
+		}
+		s.active = true
+		for _, o := range m.crcs {
+			if o == s || !o.active || o.kind != s.kind {
+				continue
+			}
+			eqSum := Cmp("=", s.v, o.v)
+			if len(o.seq) != len(s.seq) {
+				m.assume(Not(eqSum))
+				continue
+			}
+			eqSeq := True
+			for i := range s.seq {
+				eqSeq = And(eqSeq, Cmp("=", s.seq[i], o.seq[i]))
+			}
+			m.assume(Cmp("=", eqSum, eqSeq))
+		}
+		if s.kind == "fnv64" && !s.allConst {
+			// stated exclusion: the running sum of a non-empty sequence is not 0
+			// (0 means "no sum" to the verifier; for the real FNV-1a this is a 2^-64 event)
+			m.assume(Not(Cmp("=", s.v, BV(64, 0))))
+		}
+		if s.allConst {
+			bs := make([]byte, len(s.seq))
+			for i, t := range s.seq {
+				bs[i] = byte(t.Val)
+			}
+			m.assume(Cmp("=", s.v, BV(s.v.W, realSum(s.kind, bs))))
+		}
+	}
 }
 
 func (m *Machine) seqOfSum(kind string, sum *Term) ([]*Term, bool) {
@@ -160,11 +180,21 @@ func (m *Machine) pinSums(model map[string]uint64) (map[string]uint64, bool) {
 	if len(m.crcs) == 0 {
 		return model, true
 	}
+	for _, s := range m.crcs {
+		for _, t := range s.seq {
+			if s.active {
+				m.touch(t)
+			}
+		}
+	}
 	for iter := 0; iter < 8; iter++ {
 		memo := map[*Term]uint64{}
 		pins := True
 		consistent := true
 		for _, s := range m.crcs {
+			if !s.active {
+				continue
+			}
 			bs := make([]byte, len(s.seq))
 			for i, t := range s.seq {
 				bs[i] = byte(Eval(t, model, memo))
